@@ -25,13 +25,14 @@ DEVS = ["FirstRepSkipEscapes", "SkipCounted", "GuardLE", "OrderByInsertion"]
 INVS = ["RepIsMergedCount", "NoSkipMerged", "NoOverrun", "AttemptsAccounted", "StopReason", "NoEscape", "Complete", "CallOrder", "HookOrder"]
 
 
-def model(gridlens, repmaxes, kgkinds, skipsets, modes, maxsim=1, exhaustive=2, dev=(), emit=True):
+def model(gridlens, repmaxes, kgkinds, skipsets, modes, maxsim=1, exhaustive=2, dev=(), emit=True, errat=()):
     d = {k: (k in dev) for k in DEVS}
     defs = {"GridLens": "{" + ", ".join(tlc.tla(list(g)) for g in gridlens) + "}",
             "RepMaxes": "{" + ", ".join(str(r) for r in repmaxes) + "}",
             "KGKinds": "{" + ", ".join(tlc.tla(list(k)) for k in kgkinds) + "}",
             "SkipSets": "{" + ", ".join("{" + ", ".join(str(x) for x in s) + "}" for s in skipsets) + "}",
             "Modes": "{" + ", ".join(tlc.tla(list(m)) for m in modes) + "}",
+            "ErrAt": "{" + ", ".join(tlc.tla(list(e)) for e in errat) + "}",
             "Dev": tlc.tla(d)}
     cfg = tlc.cfg_text(constants={"MaxSim": str(maxsim), "Exhaustive": str(exhaustive)}, defs=defs, invariants=INVS,
                        properties=["BodyOnlyAfterPositiveTest"], action_constraints=["Emit"] if emit else [])
@@ -83,6 +84,9 @@ def build_runner(case, log, workdir=None):
                     log.append(["bad", v, f"fixed parameter {k} is {current_params[k]!r} in the variation"])
             a = self.attempt.get(v, 0) + 1
             self.attempt[v] = a
+            if [v, a] in case.get("errat", []):
+                log.append(["call", v, a, "raise"])
+                raise (ZeroDivisionError, FloatingPointError, OverflowError)[(v + a) % 3]("planned error of the user's iteration")
             if a in plans[v - 1]["skip"]:
                 log.append(["call", v, a, "skip"])
                 raise SkipThisOne("planned skip")
@@ -214,9 +218,20 @@ def run_case(case):
                     r.simulate()
             except Exception as ex:
                 from pyphysim.simulations.runner import SkipThisOne
+                if isinstance(ex, ArithmeticError) and "planned error" in str(ex):
+                    if case["outcome"] != "raised":
+                        return f"simulate() raised {type(ex).__name__} although no iteration was planned to fail", None, log
+                    calls = [[e[1], e[2], e[3]] for e in log if e[0] == "call"]
+                    if calls != case["calls"]:
+                        return (f"an error raised by the user's iteration came out of simulate() after the calls {calls[-3:]}, "
+                                f"expected {case['calls'][-3:]}"), None, log
+                    return None, None, log
                 if isinstance(ex, SkipThisOne):
                     return "SkipThisOne raised by the first repetition of a variation escaped simulate()", "FirstRepSkipEscapes", log
                 return f"simulate() raised {type(ex).__name__}: {ex}", None, log
+            if case["outcome"] == "raised":
+                return ("an (arithmetic) error raised by the user's iteration was swallowed: simulate() returned normally "
+                        f"(runned_reps {getattr(r, 'runned_reps', None)})"), None, log
             if earlier is not None:
                 res0, vals0, reps0 = earlier
                 if [x.get_result() for x in res0["tok"]] != vals0 or list(res0.runned_reps) != reps0:
@@ -272,6 +287,12 @@ def run_case(case):
             shutil.rmtree(wd, ignore_errors=True)
 
 
+# an iteration that raises an error of its own (not SkipThisOne): simulate() lets it out, at the planned place
+ERR_FAMILIES = [dict(gridlens=[[2], [3], [2, 2]], repmaxes=[2, 3], kgkinds=[["always"]], skipsets=[[], [1]], modes=[["all"]], maxsim=1,
+                     exhaustive=0, errat=[e]) for e in ([2, 1], [1, 2], [2, 3])]
+# far more skipped attempts than repetitions asked for: none of them counts, none of them ends the combination early
+SKIP_FAMILY = dict(gridlens=[[2]], repmaxes=[1, 2], kgkinds=[["always"]], skipsets=[[], list(range(1, 12)), list(range(2, 25))],
+                   modes=[["all"], ["single", 1]], maxsim=1, exhaustive=2)
 FAMILIES = {
     "quick": [
         dict(gridlens=[[], [2], [1, 2]], repmaxes=[1, 2, 3], kgkinds=[["always"], ["stopAt", 1], ["stopAt", 2], ["noSkip"]],
@@ -303,7 +324,7 @@ def run(ctx):
                 "distinct = distinct configurations executed on a real SimulationRunner")
     ctx.assumptions += ["the user's iteration and stop rule are deterministic functions of (variation, attempt) and (rep, skips)",
                         "simulate_in_parallel (ipyparallel) is not covered"]
-    fams = FAMILIES[ctx.tier]
+    fams = FAMILIES[ctx.tier] + ERR_FAMILIES + [SKIP_FAMILY]
     with ThreadPoolExecutor(4) as ex:
         futs = [ex.submit(lambda f=f: tlc.run(MODULE, model(**f)[0], defs=model(**f)[1], coverage=True, timeout=3000, heap="3g")) for f in fams]
         devf = ex.submit(model_devs, ctx)
@@ -313,6 +334,8 @@ def run(ctx):
     for k, r in enumerate(runs):
         ctx.account(r, MODULE, f"family{k}")
         cases = r.emitted
+        for c in cases:
+            c["errat"] = [list(e) for e in fams[k].get("errat", [])]
         res = pool_map(run_case, cases, chunksize=max(1, len(cases) // 128))
         for c, (d, fid, log) in zip(cases, res):
             ctx.ok(("run", tlc.tla(c["cfg"]["lens"]), str(c["cfg"])))
